@@ -18,7 +18,8 @@ PROPS = ("C19", "C20")
 SIMFILE_NAMES = ["song.sm", "song.ssc", "Song.SM", "x.Ssc", "a b.sm", "other.ssc", "z.sM",
                  "second.sm", "SECOND.SSC"]
 NEAR_MISS = ["x.sm.old", "x.ssca", "sm", "ssc", "x.smx", "song.sm~", "xsm", "x.ssc.bak", "notes.txt",
-             "x.s", "a.sm.txt"]
+             "x.s", "a.sm.txt", "notes.\u017fm", "draft.\u00dfc", "DRAFT.\u00dfC", "todo.sm\n",
+             "Backup.SSC\n", "x.sm ", "x.\u0455m", "SM", ".sm.", "x.ssc\r"]
 IMAGES = ["banner.png", "songbn.JPG", "bn.png", "xbg.png", "background.jpeg", "cdtitle.gif",
           "jk_x.png", "jacket.bmp", "albumart.bmp", "x-cd.png", "x disc.png", "x title.png",
           "Banner.PNG", "mybanner2.png", "bnx.png", "bgm.png", "cd.png", "xjk_.png", "disc.png",
@@ -64,6 +65,10 @@ def _simfile_bytes(rng, fmt, assets, stray, enc):
 
 
 def _case_variant(rng, name):
+    if not name.isascii():
+        # special case mappings change more than the letter case ('\u00df'.upper() == 'SS'
+        # would turn a near-miss extension into a real one)
+        return name
     r = rng.random()
     if r < 0.34:
         return name.upper()
@@ -122,8 +127,10 @@ def _gen_song_dir(rng, d, files, dirs, prop):
                 elif r < 0.9 and subs and subfiles[subs[0]]:
                     n = rng.choice(subfiles[subs[0]])
                     v = subs[0] + "/" + (n if rng.random() < 0.5 else _case_variant(rng, n))
-                elif r < 0.95:
+                elif r < 0.93:
                     v = "nosuchdir/" + rng.choice(pool)           # file in a missing sub-directory
+                elif r < 0.96 and present:
+                    v = rng.choice(present) + "/" + rng.choice(pool)   # "sub-directory" is a regular file
                 else:
                     v = rng.choice(pool)
                 assets.append((kind, v))
@@ -136,7 +143,8 @@ def generate(prop, rng, run, tier):
     files = {}
     dirs = ["/Songs"]
     pack_name = rng.choice(["Pack", "My Pack", "pack.v2", "P"])
-    pack = "/Songs/" + pack_name
+    parent = "/Songs" if rng.random() < 0.8 else ""         # sometimes a top-level pack
+    pack = parent + "/" + pack_name
     dirs.append(pack)
     nsongs = rng.randint(0, 4)
     song_names = rng.sample(["Alpha", "beta song", "Gamma.v2", "delta", "E"], nsongs)
@@ -151,9 +159,11 @@ def generate(prop, rng, run, tier):
                          "notimage.txt", "png", "q.png.bak"], rng.randint(0, 3)):
         files[pack + "/" + n] = b"img".hex()
     for ext in rng.sample(IMAGE_EXT + [".PNG", ".txt"], rng.randint(0, 2)):
-        files["/Songs/" + pack_name + ext] = b"beside".hex()
+        files[parent + "/" + pack_name + ext] = b"beside".hex()
     if rng.random() < 0.2:
-        files["/Songs/" + pack_name.upper() + "X.png"] = b"other".hex()
+        files[parent + "/" + pack_name.upper() + "X.png"] = b"other".hex()
+    if rng.random() < 0.2:
+        files[parent + "/" + pack_name + " 2.png"] = b"sibling".hex()
     cfg = {"facade": gen.wchoice(rng, [("simfs", 46), ("native", 46), ("memoryfs", 4), ("realos", 4)]),
            "listing": rng.choice(["sorted", "stable", "stable", "reshuffle", "reshuffle"]),
            "listing_seed": rng.randint(0, 10 ** 6),
@@ -792,7 +802,7 @@ def check_c20(sc, res):
             admissible = set()
             why = "beside"
             for ext in IMAGE_EXT:
-                p = posixpath.dirname(pack) + "/" + posixpath.basename(pack) + ext
+                p = posixpath.join(posixpath.dirname(pack), posixpath.basename(pack) + ext)
                 if tree.isfile(p):
                     admissible = {p}
                     break
